@@ -122,15 +122,44 @@ class Sym:
                      for x in p[1:] if isinstance(x, list) and x[0] in ("f", "i"))
 
     def local(self, l, path=(), depth=0):
-        key = (l, path)
+        # a path-restricted flow knows every definition of a local on the path: a read inside the evaluation of a definition at position `at` sees the latest definition
+        # before it (`tot += x` three times is a sum of three terms, not a cycle); a read from outside (a rule asking for an operand) sees the last one
+        multi = getattr(self.flow, "all_defs", None)
+        chosen = None
+        if multi and l in multi and not (1 <= l <= self.fn.argc):
+            ds = multi[l]
+            at = getattr(self, "at", None)
+            if at is not None:
+                ds = [d for d in ds if self.flow.order(d) < at]
+            chosen = ds[-1] if ds else "none"
+        key = (l, path) if chosen is None else (l, path, "none" if chosen == "none" else self.flow.order(chosen))
         if key in self.memo:
             return self.memo[key]
         if depth > 60:
             return Poly.atom(("op", "deep", l))
         self.memo[key] = Poly.atom(("phi", self.fn.uid, l))  # cycle guard
-        r = self._local(l, path, depth)
+        if chosen is None:
+            r = self._local(l, path, depth)
+        elif chosen == "none":
+            r = Poly.atom(("phi", self.fn.uid, l) if not path else ("phi", self.fn.uid, l, path))
+        else:
+            r = self._eval_def(chosen, l, path, depth)
         self.memo[key] = r
         return r
+
+    def _eval_def(self, d, l, path, depth):
+        saved = getattr(self, "at", None)
+        if hasattr(self.flow, "order"):
+            self.at = self.flow.order(d)
+        try:
+            if d[0] == "call":
+                return self.call(d[1], d[2], path, depth)
+            _, bi, si, pl, rv = d
+            if len(pl) > 1:
+                return Poly.atom(("op", "partial", l))
+            return self.rvalue(rv, path, depth, bi, si)
+        finally:
+            self.at = saved
 
     def _local(self, l, path, depth):
         fn = self.fn
@@ -148,13 +177,7 @@ class Sym:
         # ignore re-definitions that only re-borrow (`x = &mut *x`)
         if len(ds) != 1:
             return Poly.atom(("phi", fn.uid, l) if not path else ("phi", fn.uid, l, path))
-        d = ds[0]
-        if d[0] == "call":
-            return self.call(d[1], d[2], path, depth)
-        _, bi, si, pl, rv = d
-        if len(pl) > 1:
-            return Poly.atom(("op", "partial", l))
-        return self.rvalue(rv, path, depth, bi, si)
+        return self._eval_def(ds[0], l, path, depth)
 
     def place(self, p, path=(), depth=0):
         pp = tuple(x for x in self._path(p) if x is not None)
